@@ -144,6 +144,25 @@ def _is_setlike(t):
                            or (t[0] == "binop" and t[1] in ("-", "|", "&", "^") and (_is_setlike(t[2]) or _is_setlike(t[3]))))
 
 
+def _norm_setlike(n):
+    """Is the NORMALISED term certainly a set?"""
+    if not is_term(n):
+        return False
+    if n[0] == "set" or (n[0] == "comp" and n[1] == "set"):
+        return True
+    if n[0] == "call" and n[1] in (("glob", "builtins.set"), ("glob", "builtins.frozenset")):
+        return True
+    if n[0] == "bar" and len(n) == 2:
+        return any(_norm_setlike(x) for x in n[1])
+    if n[0] in ("if", "ifnone", "phi", "ifexp") and len(n) == 4:
+        return _norm_setlike(n[2]) and _norm_setlike(n[3])
+    if n[0] == "binop" and n[1] in ("-", "&", "^"):
+        return _norm_setlike(n[2])
+    if n[0] == "op" and len(n) == 3 and n[1] == "and":
+        return any(_norm_setlike(x) for x in n[2])
+    return False
+
+
 def is_arith(t):
     if t[0] == "binop" and t[1] == "-" and (_is_setlike(t[2]) or _is_setlike(t[3])):
         return False  # set difference
@@ -604,7 +623,10 @@ def norm(t, _arith=True):  # noqa: C901, PLR0911, PLR0912
         return ("call", ("glob", "builtins.tuple"), (norm(("list", t[1])),), ())
     if tag == "call" and t[1][0] == "attr" and t[1][2] in ("difference", "union", "intersection") and len(t[2]) == 1 and not t[3]:
         op = {"difference": "-", "union": "|", "intersection": "&"}[t[1][2]]
-        return norm(("binop", op, t[1][1], t[2][0]))
+        arg = t[2][0]
+        if _is_setlike(t[1][1]) and not _is_setlike(arg):
+            arg = ("call", ("glob", "builtins.set"), (arg,), ())  # s.intersection(xs) == s & set(xs)
+        return norm(("binop", op, t[1][1], arg))
     if tag == "call" and t[1] == ("glob", "builtins.len") and len(t[2]) == 1 and t[2][0][0] == "comp" and t[2][0][1] in ("list", "gen", "set") \
             and len(t[2][0][3]) == 1 and t[2][0][3][0][2]:
         c = t[2][0]
@@ -689,6 +711,10 @@ def norm(t, _arith=True):  # noqa: C901, PLR0911, PLR0912
         if name == "builtins.zip" and any(k == "strict" for k, _ in t[3]):
             # whether a length mismatch raises or truncates is not part of the normal form (see deindex)
             t = ("call", f, t[2], tuple((k, v) for k, v in t[3] if k != "strict"))
+        if name in ("builtins.set", "builtins.frozenset") and len(t[2]) == 1 and not t[3]:
+            inner = norm(_strip_keys(t[2][0]))
+            if _norm_setlike(inner):
+                return inner  # set(<a set>) is that set
         if name == "builtins.list" and len(t[2]) == 1 and not t[3]:
             parts = _chain_parts(t[2][0])
             if parts is not None:
